@@ -6,6 +6,11 @@ import MJ.Proofs.JsonFloat
 import MJ.Proofs.SerdeTotal
 import MJ.Proofs.ValueSer
 import MJ.Proofs.JsonSer
+import MJ.Proofs.JsonBytes
+import MJ.Proofs.SerdeValue
+import MJ.Proofs.SerdeArg
+import MJ.Proofs.SerdeMethods
+import MJ.Proofs.SerdeBuf
 /-!
 # C16 — values round-trip through serde; `tojson` emits valid, HTML-safe JSON
 
@@ -57,7 +62,15 @@ def C16_full : Prop :=
   (∀ (lv : LV) (st : Style) (j : J), Honest lv → jsonOf (toV false lv) = .ok j →
       ∃ t, writeCalls st (serCalls lv) = .ok t ∧ parseJ (tojson t) = some j ∧ parseJ t = some j) ∧
   -- (10) the internal-serialisation flag is restored by every conversion, nested and unwinding ones included
-  (∀ (c : Conv) (flag : Bool), (runConv c flag).1 = flag)
+  (∀ (c : Conv) (flag : Bool), (runConv c flag).1 = flag) ∧
+  -- (11) no *byte* of the UTF-8 encoding of tojson output is one of < > & '
+  (∀ (text : List Char) (b : Nat), b ∈ utf8Encode (tojson text) → b ≠ 60 ∧ b ≠ 62 ∧ b ≠ 38 ∧ b ≠ 39) ∧
+  -- (12) the round trip also holds through serde's buffering read path (untagged / internally tagged enums, flatten)
+  --      and through a `Serde<T>` call argument
+  (∀ (s : Shape) (d : D), wf s d = true → de s (normV (ser s d)) = .ok d) ∧
+  (∀ (s : Shape) (d : D), wf s d = true → argConv s (.value (ser s d)) = .ok d) ∧
+  -- (13) plain data read back into a `Value` keeps its JSON image
+  (∀ (v w : V), cleanV v = true → reval v = .ok w → jsonOf w = jsonOf v)
 
 /-! ## (1) round trip -/
 
@@ -348,12 +361,196 @@ theorem source_tie :
     MJ.Gen.valueHandleBits = 32 ∧ MJ.Gen.serializationGuardRestores = true := by
   refine ⟨by decide, by decide, by decide, rfl, rfl, rfl, rfl⟩
 
+/-! ## second generation: bytes of the output, `Value` as a target, call arguments, the method tables -/
+
+/-- what reaches an HTML parser is the UTF-8 encoding of the filter's output: none of its *bytes* is
+`<`, `>`, `&` or `'` (all bytes of a multi-byte sequence are ≥ 0x80) -/
+theorem tojson_alphabet_bytes (text : List Char) (b : Nat) (hb : b ∈ utf8Encode (tojson text)) :
+    b ≠ 60 ∧ b ≠ 62 ∧ b ≠ 38 ∧ b ≠ 39 := by
+  have h := postT_alphabet_bytes MJ.Gen.tojsonReplacements tojson_table_clean tojson_table_covers text b hb
+  simp only [forbiddenBytes, List.mem_cons, List.not_mem_nil, or_false, not_or] at h
+  exact ⟨h.1, h.2.1, h.2.2.1, h.2.2.2⟩
+
+example : utf8Encode (tojson "é<€'𝄞".toList) =
+    [195, 169, 92, 117, 48, 48, 51, 99, 226, 130, 172, 92, 117, 48, 48, 50, 55, 240, 157, 132, 158] := by decide
+
+/-- map keys that have no JSON string form — none, undefined, bytes, sequences, maps, invalid values,
+non-finite floats — make the serialiser refuse (the filter fails, nothing is emitted); every other
+object-free key has one: strings as they are, integers and finite floats by their digits, booleans
+`true` / `false` -/
+theorem key_string_forms (k : V) (hk : objFree k = true) :
+    (keyOf k = .refuse ↔
+      (k = .none ∨ k = .undefined ∨ k = .invalid ∨ (∃ b, k = .bytes b) ∨ (∃ t xs, k = .seq t xs) ∨ (∃ kvs, k = .map kvs) ∨
+       (∃ b, k = .f64 b ∧ f64Finite b = false))) ∧
+    (keyOf k ≠ .unmodelled) := by
+  cases k with
+  | f64 b =>
+    by_cases hf : f64Finite b = true
+    · simp [keyOf, hf]
+    · simp only [Bool.not_eq_true] at hf
+      simp [keyOf, hf]
+  | obj i => simp [objFree] at hk
+  | _ => simp [keyOf]
+
+def keyIs (k : V) (t : String) : Bool :=
+  match keyOf k with
+  | .ok s => s == t.toList
+  | _ => false
+
+example : keyIs (.int true 18446744073709551615) "18446744073709551615" = true ∧ keyIs (.bool true) "true" = true ∧
+    keyIs (.f64 4609434218613702656) "1.5" = true ∧ keyIs (.int false (-7)) "-7" = true := by
+  refine ⟨by decide +kernel, by decide +kernel, by decide +kernel, by decide +kernel⟩
+example : keyOf (.seq true [.int false 1]) = .refuse ∧ keyOf .none = .refuse := ⟨rfl, rfl⟩
+
+/-- `Value` itself as the target (`Value::deserialize(v)`, a `Value` field of a derived type, owned and
+borrowed): plain data — no dynamic objects, no invalid values — reads back as its normal form
+(`undefined` as `none`, strings without the safe flag, tuples as lists), nothing else changes -/
+theorem value_target_reads_data (v : V) (h : cleanV v = true) : reval v = .ok (normV v) :=
+  reval_clean v h
+
+/-- … and the normal form has the same JSON image: reading a value back into a `Value` and
+printing it with `tojson` gives the text the original would have given -/
+theorem value_target_keeps_json_image (v w : V) (h : cleanV v = true) (hw : reval v = .ok w) :
+    jsonOf w = jsonOf v := by
+  rw [reval_clean v h] at hw
+  injection hw with hw
+  rw [← hw]
+  exact jsonOf_normV v
+
+example : cleanV exValue = true := by decide
+example : reval (.seq true [.undefined, .str "<b>".toList true, .int true 18446744073709551615]) =
+    .ok (.seq false [.none, .str "<b>".toList false, .int true 18446744073709551615]) := by rfl
+example : reval (.seq false [.obj 1]) = .error .unmodelled ∧ reval (.map [(.str [] false, .invalid)]) = .error .err :=
+  ⟨rfl, rfl⟩
+
+/-- serde's buffering read path — untagged and internally tagged enums, `#[serde(flatten)]` — first
+copies the value into serde's own `Content` tree by `deserialize_any` (which forgets exactly what
+`normV` forgets: undefined vs none, the safe flag, tuple vs list) and then drives the visitor of the
+type from that copy.  `de` cannot tell a value from its normal form … -/
+theorem buffered_read_same (s : Shape) (v : V) : de s (normV v) = de s v := de_normV s v
+
+/-- … hence the round trip also holds through the buffer -/
+theorem buffered_roundtrip (s : Shape) (d : D) (h : wf s d = true) : de s (normV (ser s d)) = .ok d :=
+  buffered_rt s d h
+
+/-- (the copy differs from the value: the tuple inside became a list) -/
+example : normV (.seq true [.undefined]) = .seq false [.none] := rfl
+example : de exShape (normV (ser exShape exData)) = .ok exData := buffered_roundtrip _ _ (by decide)
+
+/-! ### member order of the two map implementations -/
+
+/-- `preserve_order` build (IndexMap): a new key goes to the end … -/
+theorem indexmap_new_key_goes_last (m : List (V × V)) (k v : V) (h : ∀ p ∈ m, keyEq p.1 k = false) :
+    mapInsert m k v = m ++ [(k, v)] :=
+  mapInsert_fresh m k v h
+
+/-- … an existing key keeps its position and takes the new value … -/
+theorem indexmap_existing_key_keeps_position (pre post : List (V × V)) (k k' v v' : V)
+    (hpre : ∀ p ∈ pre, keyEq p.1 k = false) (hk : keyEq k' k = true) :
+    mapInsert (pre ++ (k', v') :: post) k v = pre ++ (k', v) :: post := by
+  induction pre with
+  | nil => simp [mapInsert, hk]
+  | cons p ps ih =>
+    obtain ⟨a, b⟩ := p
+    have h1 : keyEq a k = false := hpre (a, b) (by simp)
+    have h2 := ih (fun q hq => hpre q (by simp [hq]))
+    simp only [List.cons_append, mapInsert, h1, Bool.false_eq_true, if_false, h2]
+
+/-- … so entries with pairwise different keys are listed (and printed by `tojson`) in insertion order;
+the default build (BTreeMap) lists a permutation of them (`map_order_is_permutation`), the one
+`Value::cmp` sorts them into, which the correspondence run predicts member by member -/
+theorem indexmap_insertion_order (kvs : List (V × V)) (h : distinctKeys (kvs.map Prod.fst) = true) :
+    buildMap kvs = kvs :=
+  buildMap_distinct kvs h
+
+example : buildMap [(.str "b".toList false, .int false 1), (.str "a".toList false, .int false 2), (.str "b".toList true, .int false 3)]
+    = [(.str "b".toList false, .int false 3), (.str "a".toList false, .int false 2)] := by rfl
+
+/-- `Serde<T>` as the type of a function / filter / test / method parameter: a serialised datum
+handed to the call arrives as the original datum -/
+theorem arg_roundtrip (s : Shape) (d : D) (h : wf s d = true) : argConv s (.value (ser s d)) = .ok d :=
+  MJ.Serde.arg_roundtrip s d h
+
+/-- a `Serde<T>` parameter is never filled from the keyword arguments or from nothing -/
+theorem arg_needs_value (s : Shape) :
+    argConv s .missing = .error .missingArgument ∧ argConv s .kwargs = .error .invalidOperation :=
+  MJ.Serde.arg_needs_value s
+
+/-- `Option<Serde<T>>`: `none` means "not given", so the round trip holds for every `T` that cannot
+serialise to `none` -/
+theorem arg_opt_roundtrip (s : Shape) (d : D) (hs : mayBeNone s = false) (h : wf s d = true) :
+    argConvOpt s (.value (ser s d)) = .ok (some d) :=
+  MJ.Serde.arg_opt_roundtrip s d hs h
+
+example : argConv exShape (.value (ser exShape exData)) = .ok exData := arg_roundtrip _ _ (by decide)
+example : mayBeNone exShape = false := by decide
+example : argConvOpt (.opt .bool) (.value (ser (.opt .bool) .none)) = .ok none := by rfl
+
+/-- Every method of serde's `Serializer` and `Deserializer` traits (regenerated from the locked
+serde_core) is accounted for: `ValueSerializer` implements exactly the methods `MJ.Serde.ser`
+transcribes; `impl Deserializer for Value` answers `deserialize_any`, `_option`, `_enum`,
+`_unit_struct`, `_newtype_struct` itself, forwards the 24 other hints to `deserialize_any` and leaves
+`deserialize_i128` / `_u128` to the trait's provided body (an error: 128-bit integers cannot be
+deserialised); the borrowed deserializer implements the same five methods by delegating to the
+owned one -/
+theorem all_serde_methods_modelled :
+    (MJ.Gen.serdeSerializerTrait.map (·.1) = MJ.SerdeMethods.serModel.map (·.1)) ∧
+    (MJ.Gen.valueSerializerMethods = MJ.SerdeMethods.serModel.map (·.1)) ∧
+    (MJ.Gen.valueCompoundSerializers = MJ.SerdeMethods.compoundModel) ∧
+    (MJ.Gen.serdeDeserializerTrait.map (fun p => (p.1, MJ.SerdeMethods.disp p.1)) = MJ.SerdeMethods.deModel) ∧
+    (MJ.Gen.refValueDeserializerExplicit = MJ.Gen.valueDeserializerExplicit ∧ MJ.Gen.refValueDeserializerDelegates = true) ∧
+    -- no impl overrides anything else of the traits (`is_human_readable`, `collect_str`, …)
+    (MJ.Gen.valueSerdeImplOtherFns = []) :=
+  MJ.SerdeMethods.all_serde_methods_modelled
+
+/-- the method a type of shape `s` calls has a body of its own exactly for options, unit structs,
+newtype structs and enums (and `Value`); every other hint is ignored, which is why `de` may decide
+by the value alone -/
+theorem shape_dispatch (s : Shape) :
+    MJ.SerdeMethods.disp (MJ.SerdeMethods.methodOfShape s) =
+      (if MJ.SerdeMethods.ownArm s then .explicit else .forwardAny) :=
+  MJ.SerdeMethods.shape_dispatch s
+
+example : MJ.SerdeMethods.methodOfShape exShape = "deserialize_struct" ∧
+    MJ.SerdeMethods.disp "deserialize_i128" = .unsupported := ⟨rfl, by decide⟩
+
+/-- `deserialize_ignored_any` is forwarded like every other hint: an entry that names no field is
+still walked, so an invalid value (or a plain object) inside it fails the whole struct -/
+theorem ignored_fields_are_walked (names : List Str) (ss : List Shape) (kvs : List (V × V)) (e : Err)
+    (hk : allStrKeys kvs = true) (h : ignoredOK names kvs = .error e) :
+    de (.struct names ss) (.map kvs) = .error e := by
+  simp only [de, hk, if_true, h, guardR]
+
+example : de (.struct ["a".toList] [.int true 0 255])
+    (.map [(.str "a".toList false, .int true 1), (.str "z".toList false, .seq false [.int true 2, .invalid])]) = .error .err := by rfl
+example : de (.struct ["a".toList] [.int true 0 255])
+    (.map [(.str "a".toList false, .int true 1), (.str "z".toList false, .seq false [.int true 2, .undefined])]) = .ok (.list [.int 1]) := by rfl
+
+/-- the scalar arms of `ValueSerializer`, the arms of `deserialize_any`, the bodies of the four other
+explicit methods and the arms of `impl Serialize for Value` towards an external serializer, as the
+sources have them now, are the ones `ser`, `de`, `serCalls` / `jsonOf` transcribe -/
+theorem serde_arms_as_modelled :
+    MJ.Gen.valueSerializerPrimArms = MJ.SerdeMethods.primArmsModel ∧
+    MJ.Gen.valueDeserializeAnyArms = MJ.SerdeMethods.anyArmsModel ∧
+    MJ.Gen.valueDeserializeOptionAsModelled = true ∧
+    MJ.Gen.valueDeserializeUnitStruct = "self.deserialize_unit(visitor)" ∧
+    MJ.Gen.valueDeserializeNewtypeStruct = "visitor.visit_newtype_struct(self)" ∧
+    MJ.Gen.valueSerializeExternalArms = MJ.SerdeMethods.externalArmsModel :=
+  MJ.SerdeMethods.serde_arms_as_modelled
+
+/-- `impl ArgType for Serde<T>` (keyword arguments refused, nothing = missing argument, otherwise
+`T::deserialize(value)`) and `impl ArgType for Option<T>` (nothing / none / undefined = `None`) read as
+`argConv` / `argConvOpt` transcribe them -/
+theorem arg_conversion_as_modelled :
+    MJ.Gen.serdeArgTypeAsModelled = true ∧ MJ.Gen.optionArgTypeAsModelled = true := ⟨rfl, rfl⟩
+
 /-- the full statement holds for the model -/
 theorem c16_full : C16_full :=
   ⟨de_ser_roundtrip, value_embedding_identity, value_embedding_in_context, registry_remove_insert,
    registry_frame, registry_no_residue, registry_refines_map, tojson_alphabet, tojson_string_parses_back,
    autoescape_string_parses_back, tojson_parses_back, autoescape_parses_back,
    tojson_parses_back_all, de_total_classification, serialize_contract, engine_json_end_to_end,
-   serialization_flag_restored⟩
+   serialization_flag_restored, tojson_alphabet_bytes, buffered_roundtrip, arg_roundtrip,
+   value_target_keeps_json_image⟩
 
 end MJ.C16
